@@ -26,11 +26,14 @@ class C01(flow.Spec):
             "process_multiple_changes), buffered applies; then loss-free all-pairs rounds. Oracle: all nodes show identical "
             "tables and identical (value, column version, causal length) per cell, no need / partial need is left, heads agree, "
             "every visible value was written by an acknowledged transaction, and quiescence is reached within the round budget. "
+            "oracle chk_cluster: at quiescence every node's table must equal the extracted table (merge_all [] U), U = the records "
+            "all origins broadcast, whenever U satisfies the cluster theorem's hypotheses (wf, no_tie, clk_unique); a family of "
+            "histories with two nodes deleting one row concurrently and a third served by relays (sync mode 2) exercises the excluded class. "
             "non-trivial = distinct history with writes on >= 2 nodes")
     assumptions = ["cr-sqlite's merge is a binary extension: Model/Crdt.v is validated by differential testing (one data column, integer keys), not verified",
                    "site attribution of clock rows (which depends on merge order for equal-value ties and sentinel rows) is excluded from the convergence comparison, as in the property",
                    "fairness: after writes stop every pair of nodes completes loss-free sessions (the harness schedules them); peer choice by SWIM/RTT is not part of this check",
-                   "convergence is a theorem for the CRDT layer (same record set => same tables and versions, for every order and duplication; superseded records may be missing), under the well-formedness hypothesis wf (checked on the real record sets by chk_spec); the cluster-level statement (every node eventually holds the records) rests on C02-C08/C10 and is checked on the real system, not proved"]
+                   "convergence is a theorem for the CRDT layer (same record set => same tables and versions, for every order and duplication; superseded records may be missing), under the well-formedness hypothesis wf (checked on the real record sets by chk_spec), and at cluster level for Model/Cluster.v (whole versions, servers hand out their live records): a node that knows every acknowledged version shows the merge of all acknowledged records, for every history without two unordered records of one row (no_tie; necessary: known finding concurrent-deletes); the cluster model is tied to the code by C03/C05 and by the chk_cluster oracle on the real agents, not step by step; eventual quiescence under fair scheduling is checked on the real system, not proved"]
 
     def cases(self, tier, seed):
         rnd = random.Random(seed)
